@@ -438,13 +438,22 @@ def host_application_settings():
     logging.basicConfig(level=logging.DEBUG, stream=open(os.devnull, "w"))
     logging.getLogger().setLevel(logging.DEBUG)
     logging.captureWarnings(False)
-    with decimal.localcontext(decimal.Context(prec=60, rounding=decimal.ROUND_05UP, traps=[], capitals=0)):
-        import_target()
-        for name in ("cvss.parser", "cvss.cvss_calculator", "cvss.interactive"):
-            try:
-                importlib.import_module(name)
-            except Exception:  # noqa
-                pass
+    x = decimal.Context(prec=60, rounding=decimal.ROUND_05UP, traps=[], capitals=0)
+    decimal.setcontext(x)
+    import_target()
+    for name in ("cvss.parser", "cvss.cvss_calculator", "cvss.interactive"):
+        try:
+            importlib.import_module(name)
+        except Exception:  # noqa
+            pass
+    # the application goes on using ITS context object for its own coarse arithmetic; the cases run under a new default
+    # context whose sticky signal flags are all set (somebody caught an InvalidOperation earlier): both are ambient state
+    # within the statement's domain, and a library that kept the object it saw at import, or that reads flags, shows now
+    x.prec, x.rounding, x.Emax, x.Emin = 1, decimal.ROUND_DOWN, 9, -9
+    cur = decimal.Context()
+    for sig in list(cur.flags):
+        cur.flags[sig] = True
+    decimal.setcontext(cur)
 
 
 def reload_target():
@@ -523,7 +532,7 @@ def interpreter_modes(part, tier):
     import tempfile
     if INTERP_MODE or os.environ.get("VERIF_NO_MODES") == "1" or not part.reservoir:
         return
-    cap = 128 if tier == "quick" else 512
+    cap = 96 if tier == "quick" else 384
     items = []
     for check in sorted(part.reservoir):
         pool = part.reservoir[check]
@@ -538,7 +547,8 @@ def interpreter_modes(part, tier):
         if isinstance(it[1], dict):
             it[1] = dict((k, x) for k, x in it[1].items() if not str(k).startswith("_"))
     modes = [({"PYTHONOPTIMIZE": "1"}, "python -O"), ({"VERIF_RELOAD": "1"}, "modules reloaded"), ({"VERIF_PYFLAGS": "-bb"}, "python -bb"),
-             ({"VERIF_HOST": "1"}, "host settings: logging at DEBUG, imported under another decimal context")]
+             ({"VERIF_HOST": "1"}, "host settings: logging at DEBUG, imported under another decimal context, signal flags set"),
+             ({"VERIF_PYDECIMAL": "1"}, "pure-Python decimal module (no _decimal accelerator)")]
     if tier != "quick":
         modes.append(({"PYTHONOPTIMIZE": "2"}, "python -OO"))
     d = tempfile.mkdtemp(prefix="vfmodes")
